@@ -148,7 +148,7 @@ def assembler(ctx):
         raise AnalysisError("assemble_sparse: 16-ary launch not found")
     call = calls[0]
     got = [roles.canon(a, defs).replace(" ", "") for a in call.args]
-    sup = "_np.flatnonzero((%s))" % "*".join(sorted(["%s.support" % D, "%s.support" % DT]))
+    sup = "nz((%s))" % "*".join(sorted(["%s.support" % D, "%s.support" % DT]))
     exp = {
         0: "%s.grid.data(*)" % D, 1: "%s.number_of_shape_functions" % DT, 2: "%s.number_of_shape_functions" % D, 3: sup,
         4: "regular_rule(%s.quadrature.regular)[0]" % pa[2], 5: "regular_rule(%s.quadrature.regular)[1]" % pa[2],
